@@ -472,7 +472,7 @@ def _sim_strategy():
     base = lifecycle_cases(
         requests=('incr', 'decr', 'set', 'restart', 'reload', 'stop',
                   'start'), kill_cmd=True, hooks=True, max_ops=16,
-        set_other=True, config=True)
+        set_other=True, config=True, signal_cmd=True, job_control=True)
     trig = st.sampled_from(['quit', 'TERM', 'INT', 'QUIT'])
 
     @st.composite
